@@ -295,6 +295,7 @@ type sev =
 | Joined of role
 | MonMapRefused
 | MonMapRet of bool
+| StartRefused of role
 
 type spc =
 | SOff
@@ -2456,6 +2457,63 @@ let step_stream s a e =
        guard ((&&) ok (match s.c_stop with
                        | CNone -> true
                        | _ -> false)) s
+     | StartRefused w ->
+       (match w with
+        | RSrc ->
+          guard
+            ((&&)
+              ((&&) ((&&) (spc_idle s.s_pc) (negb (hst_eqb s.cam_st HArmed)))
+                (negb (hst_eqb s.cam_st HRunning)))
+              (match s.c_start with
+               | TFiltUp -> true
+               | _ -> false))
+            (set (fun s0 -> s0.c_start) (fun f ->
+              let c = fun r -> f r.c_start in
+              (fun x -> { valid = x.valid; maxn = x.maxn; cam = x.cam;
+              cam_st = x.cam_st; sto = x.sto; sto_st = x.sto_st; cam_tag =
+              x.cam_tag; cam_next = x.cam_next; log = x.log; accepting =
+              x.accepting; sink_reg = x.sink_reg; sink_cur = x.sink_cur;
+              sink_map = x.sink_map; mon_reg = x.mon_reg; mon_cur =
+              x.mon_cur; mon_map = x.mon_map; src_stopping = x.src_stopping;
+              abort_win = x.abort_win; sink_stopping = x.sink_stopping;
+              filt_stopping = x.filt_stopping; src_running = x.src_running;
+              sink_running = x.sink_running; filt_running = x.filt_running;
+              s_pc = x.s_pc; k_pc = x.k_pc; f_pc = x.f_pc; c_stop = x.c_stop;
+              c_start = (c x); iframe = x.iframe; base = x.base; delivered =
+              x.delivered; stored = x.stored; sto_failed = x.sto_failed;
+              seen = x.seen; aborted = x.aborted; cam_failed = x.cam_failed;
+              acq_on = x.acq_on; src_on = x.src_on; goal = x.goal;
+              mon_fresh = x.mon_fresh; dropped = x.dropped; cam_starts =
+              x.cam_starts; cam_stops = x.cam_stops; sto_starts =
+              x.sto_starts; sto_stops = x.sto_stops })) (fun _ -> TFailed) s)
+        | RSink ->
+          guard
+            ((&&)
+              ((&&) ((&&) (workers_idle s) (negb (hst_eqb s.sto_st HArmed)))
+                (negb (hst_eqb s.sto_st HRunning)))
+              (match s.c_start with
+               | TBegin -> true
+               | _ -> false))
+            (set (fun s0 -> s0.c_start) (fun f ->
+              let c = fun r -> f r.c_start in
+              (fun x -> { valid = x.valid; maxn = x.maxn; cam = x.cam;
+              cam_st = x.cam_st; sto = x.sto; sto_st = x.sto_st; cam_tag =
+              x.cam_tag; cam_next = x.cam_next; log = x.log; accepting =
+              x.accepting; sink_reg = x.sink_reg; sink_cur = x.sink_cur;
+              sink_map = x.sink_map; mon_reg = x.mon_reg; mon_cur =
+              x.mon_cur; mon_map = x.mon_map; src_stopping = x.src_stopping;
+              abort_win = x.abort_win; sink_stopping = x.sink_stopping;
+              filt_stopping = x.filt_stopping; src_running = x.src_running;
+              sink_running = x.sink_running; filt_running = x.filt_running;
+              s_pc = x.s_pc; k_pc = x.k_pc; f_pc = x.f_pc; c_stop = x.c_stop;
+              c_start = (c x); iframe = x.iframe; base = x.base; delivered =
+              x.delivered; stored = x.stored; sto_failed = x.sto_failed;
+              seen = x.seen; aborted = x.aborted; cam_failed = x.cam_failed;
+              acq_on = x.acq_on; src_on = x.src_on; goal = x.goal;
+              mon_fresh = x.mon_fresh; dropped = x.dropped; cam_starts =
+              x.cam_starts; cam_stops = x.cam_stops; sto_starts =
+              x.sto_starts; sto_stops = x.sto_stops })) (fun _ -> TFailed) s)
+        | RFilt -> None)
      | _ -> None)
   | ASrc ->
     (match e with
@@ -4565,6 +4623,7 @@ let fail_start s =
 let is_start_failure = function
 | DStoStart (_, ok) -> if ok then false else true
 | DCamStart (_, ok, _) -> if ok then false else true
+| StartRefused _ -> true
 | _ -> false
 
 (** val devs_stopped : stream -> bool **)
